@@ -590,6 +590,21 @@ class C19(RebuildProp):
                     out.append({"version": v, "P": B, "tree": t, "meta_src": ("ref", "own")[len(out) % 2], "hostile": True,
                                 "dest_links": links, "nsearch": 1, "unrelated": 1, "clauses": list(self.clauses),
                                 "route": ("lib", "cli")[(len(out) // 2) % 2]})
+        # a copy that cannot succeed (a path element longer than the filesystem allows, a file where a directory is
+        # wanted) into a destination that lies below otherwise empty directories / does not exist yet: whatever
+        # clean-up follows must stop at the destination
+        for v in (1, 2, 3):
+            for kind in ("toolong", "file_in_way"):
+                for dest_absent in (False, True):
+                    if kind == "file_in_way" and dest_absent:
+                        continue
+                    t = mk_tree("D2", (B + 5, 2 * B))
+                    for fi, f in enumerate(t["files"]):
+                        f["meta_path"] = (["L" * 300] if kind == "toolong" else ["sub"]) + ["victim%d.bin" % fi]
+                        f["cands"] = [{"cls": "intact", "search": 0, "depth": fi}]
+                    out.append({"version": v, "P": B, "tree": t, "meta_src": "ref", "hostile": True, "nsearch": 1, "unrelated": 1,
+                                "lonely_dest": True, "dest_absent": dest_absent, "file_in_way": kind == "file_in_way",
+                                "clauses": list(self.clauses), "route": ("lib", "cli")[len(out) % 2]})
         out += self.pathres_cases(tier, rng)
         # benign controls: ordinary names must keep working (copy happens inside the destination)
         for v in (1, 2, 3):
